@@ -55,6 +55,31 @@ CLAIMS.update({
                     "five genuine defects are known findings re-confirmed natively each run.",
             "note": "Assumes documented preconditions only. pkg/helpers and pkg/integrations kernels are outside this revision's claim. Trusted: go/ssa, symgo, z3.",
             "technique": TECH_FORK, "design_ref": "DESIGN.md section 4 (C20)"},
+    "C04": {"text": "Sequential clause: a mutation (any kind, any called set) issued from inside any handler call of a running transition is executed path by path "
+                    "through the real queueMutation/processQueue: it is never run nested, gets the next queue tick, is processed after the current transition, the queue "
+                    "is empty and released when the outer call returns, and WhenQueue(tick) closes once the tick was processed (not closing for canceled mutations is a "
+                    "known finding). The concurrent clause (several goroutines racing on the queue CAS) is NOT decided: it would need a partial-order encoding of two "
+                    "threads that this revision does not have.",
+            "note": MK_NOTE + " Race clause outside the claim (DESIGN.md section 5).", "technique": TECH_FORK, "design_ref": "DESIGN.md section 4 (C04)"},
+    "C06": {"text": "No lost or spurious wake-ups for When, WhenNot, WhenTime, WhenTicks, WhenNextActive, WhenQuery, WhenQueue and NewStateCtx over two mutations (plus "
+                    "auto mutations) with the subscription placed before the first transition, between its apply step and processSubscriptions (from a final handler) or "
+                    "after it, with and without a cancelation context; all paths of the real Subscriptions code. A spurious close of multi-state When on a swap is a known finding.",
+            "note": MK_NOTE + " The three subscription positions are reached from the transition's own goroutine; a racing subscriber goroutine is reduced to them by the "
+                    "activeStatesMx critical sections (not explored as schedules).", "technique": TECH_FORK, "design_ref": "DESIGN.md section 4 (C06)"},
+    "C08": {"text": "Fault kernel: a panic at any of the first six handler calls of one mutation is delivered the way handlerLoop's recover delivers it (on handlerPanic), "
+                    "so the real processHandlers, recoverToErr, recoverFinalPhase and the prepended Exception mutation run: Exception active, parity = activity, negotiation "
+                    "faults leave ticks untouched and cancel, the machine accepts the next mutation.",
+            "note": MK_NOTE + " Real panics, goroutine containment, timeouts/deadlines and double faults are outside the claim.", "technique": TECH_FORK,
+            "design_ref": "DESIGN.md section 4 (C08)"},
+    "C11": {"text": "Two executions of the same schema + pre-state + mutation with independently chosen iteration orders at the map ranges of NewAutoMutation, "
+                    "TopologicalSort and ParseStates (one path per permutation, feasibility by z3) must agree on Result, machine time and handler sequence. The map-order "
+                    "dependence of auto mutations found this way was repaired (fix: 8bdd145).",
+            "note": MK_NOTE + " Natively a counterexample is confirmed by 48 re-executions.", "technique": TECH_FORK, "design_ref": "DESIGN.md section 4 (C11)"},
+    "C13": {"text": "Dispose kernel: for every subset of outstanding waiters (When, WhenNot, WhenTime, WhenArgs, WhenQueue, WhenQuery, state context; shared ctx or none), "
+                    "0..2 dispose handlers and a single or double DisposeForce, the real doDispose/Subscriptions.dispose release every waiter, run each handler once, close "
+                    "WhenDisposed, and later Add/Remove/Set/CanAdd/When* calls return neutral values.",
+            "note": MK_NOTE + " Dispose() proper (forked, sleeping), handler-goroutine exit, concurrent dispose: outside the claim.", "technique": TECH_FORK,
+            "design_ref": "DESIGN.md section 4 (C13)"},
 })
 
 NA = {
